@@ -1236,6 +1236,18 @@ class ContactHandler(Messenger, dbus.service.Object):
     def _rx_teardown(self):
         self._rx_tmp = None
 
+    def _flush_pend_start(self):
+        ''' Report all queued but not yet started transfers as not sent. '''
+        while self._tx_pend_start:
+            item = self._tx_pend_start.pop(0)
+            self._logger.warning('Terminating and ignoring transfer %d', item.transfer_id)
+            self._tx_map.pop(item.transfer_id, None)
+            self.send_bundle_finished(
+                str(item.transfer_id),
+                item.total_length or 0,
+                'session terminating'
+            )
+
     def _check_sess_term(self):
         ''' Perform post-termination logic. '''
         if self._in_term and self.is_sess_idle():
@@ -1246,15 +1258,7 @@ class ContactHandler(Messenger, dbus.service.Object):
         Messenger.recv_sess_term(self, reason)
 
         # No further processing
-        while self._tx_pend_start:
-            item = self._tx_pend_start.pop(0)
-            self._logger.warning('Terminating and ignoring transfer %d', item.transfer_id)
-            self._tx_map.pop(item.transfer_id, None)
-            self.send_bundle_finished(
-                str(item.transfer_id),
-                item.total_length or 0,
-                'session terminating'
-            )
+        self._flush_pend_start()
         self._check_sess_term()
 
     def recv_xfer_data(self, transfer_id, flags, data, ext_items):
@@ -1491,6 +1495,10 @@ class ContactHandler(Messenger, dbus.service.Object):
             if not self._in_sess:
                 # waiting for session
                 return True
+            if self._in_term:
+                # no new transfer is started once termination has begun
+                self._flush_pend_start()
+                return False
             if not self._tx_pend_start:
                 # nothing to do
                 return False
